@@ -168,6 +168,11 @@ def _run(V, work, tier):
             if not (a == b == c):
                 V.add(None, "the readers return different trees for %s" % shown, {"text": t, "strict": str(a), "ft": str(b), "fmt": str(c)})
                 continue
+        # the readers an embedder gets (an io.Reader behind the scanner's fixed window) answer as the string readers do
+        for k, base in (("strict_io", s), ("fmt_io", fm)):
+            w = r.get(k)
+            if w is not None and (w["ok"] != base["ok"] or (w["ok"] and [rnode(x) for x in w["trees"]] != [rnode(x) for x in base["trees"]])):
+                V.add(None, "the %s reader behind an io.Reader answers differently for %s" % (k.split("_")[0], shown), {"text": t, "string": base, "io": w})
         if s["ok"] != m["ok"]:
             V.add(None, "acceptance differs from the specification for %s: reader %s, specification %s (%s)" % (shown, s["ok"], m["ok"], s.get("cond")), {"text": t, "tokens": r.get("tokens"), "model_tokens": m.get("toks")})
             continue
@@ -204,6 +209,35 @@ def _run(V, work, tier):
         want = [mnode(y) for y in model[x["orig"]]["trees"]]
         if not r["strict"]["ok"] or [rnode(y) for y in r["strict"]["trees"]] != want:
             V.add(None, "layout changes the tree: %s reads differently from %s" % (json.dumps(x["text"]), json.dumps(x["orig"])), x)
+    # ---- separators LONGER than the scanner's window (128 KiB): a comment, a run of blanks, a run of line breaks between two
+    # complete tokens, at the window size and around it; whatever stands behind the long separator is still code or still
+    # comment, never the other
+    W = 128 << 10
+    longs = []
+    for t in rnd.sample(acc, min(len(acc), 6)) + ["(list 1 2)", "(a 'b [c])"]:
+        pieces = _split(t) if t in model else [(False, "(list"), (True, " "), (False, "1"), (True, " "), (False, "2)")] if t == "(list 1 2)" else [(False, "(a"), (True, " "), (False, "'b"), (True, " "), (False, "[c])")]
+        seps = [j for j, (isw, _) in enumerate(pieces or []) if isw and 0 < j < len(pieces) - 1]
+        if not seps:
+            continue
+        k = rnd.choice(seps)
+        for name, sep in (("comment", " ;" + "x" * (W + 900) + "\n"), ("comment-with-code", " ;" + "x" * (W - 40) + " (evil) 77 " + "y" * 200 + "\n"), ("blanks", " " * (W + 900)),
+                          ("breaks", "\n" * (W + 900)), ("blanks-at-window", " " * (W - 1)), ("blanks-window+1", " " * (W + 1)), ("comment-at-window", ";" + "x" * (W - 2) + "\n")):
+            longs.append({"id": len(longs), "text": "".join(x for _, x in pieces[:k]) + sep + "".join(x for _, x in pieces[k + 1:]), "orig": t, "kind": name})
+    lr2 = {r["id"]: r for r in driver_json(binary, ["reader"], [{"id": x["id"], "text": x["text"]} for x in longs], timeout=3300)}
+    for x in longs:
+        r = lr2[x["id"]]
+        want = [mnode(y) for y in model[x["orig"]]["trees"]] if x["orig"] in model else None
+        if want is None:       # (the two fixed texts: the reader's own answer for the short spelling is the reference)
+            ref = driver_json(binary, ["reader"], [{"id": 0, "text": x["orig"]}])[0]["strict"]
+            want = [rnode(y) for y in ref["trees"]]
+        for k in ("strict", "strict_io", "fmt_io"):
+            w = r[k]
+            if w["ok"] and want is not None and [rnode(y) for y in w["trees"]] != want:
+                V.add(None, "a long separator (%s) changes the tree read by %s: %s... reads differently from %s" % (x["kind"], k, json.dumps(x["text"][:40]), json.dumps(x["orig"])),
+                      {"orig": x["orig"], "kind": x["kind"], "reader": k, "tree": str(w["trees"])[:600]})
+            elif not w["ok"]:
+                V.add("long-comment-rejected" if "comment exceeds maximum token size" in str(w.get("msg")) else None, "a long separator (%s) makes %s reject %s: %s" % (x["kind"], k, json.dumps(x["orig"]), str(w.get("msg"))[:100]), {"orig": x["orig"], "kind": x["kind"], "reader": k})
+    V.coverage["long_separator_variants"] = len(longs)
     V.coverage["layout_variants"] = len(lay)
     # ---- values BUILT by evaluation (parsed trees never share nodes, these do): deep nesting around a list object that
     # occurs more than once, and around repeated empty lists; the printed text is compared with the structure's own
